@@ -20,6 +20,7 @@ import (
 	discovery_v1 "k8s.io/api/discovery/v1"
 	networking "k8s.io/api/networking/v1"
 	meta_v1 "k8s.io/apimachinery/pkg/apis/meta/v1"
+	"k8s.io/apimachinery/pkg/types"
 	"k8s.io/apimachinery/pkg/util/intstr"
 
 	"github.com/nginx/kubernetes-ingress/internal/configs"
@@ -125,6 +126,8 @@ type Case struct {
 	Deps  map[string]string `json:"deps"` // svc:ns/name -> state, secret:ns/name -> state, policy:ns/name -> state
 	Res   []Res             `json:"res"`
 	// class "names": one identifier scheme applied to components
+	K       int      `json:"k,omitempty"`       // class "payload": enumeration index
+	Payload *Payload `json:"payload,omitempty"` // class "payload": the mutated leaf
 	Scheme string   `json:"scheme,omitempty"`
 	Args   []string `json:"args,omitempty"`
 	Obs    Obs      `json:"obs"`
@@ -133,6 +136,11 @@ type Case struct {
 // ---------------------------------------------------------------- world
 
 type world struct {
+	allOK    bool // every Service ready, every Secret and Policy present and valid
+	shared   bool // several resources of different kinds share one namespace/name and a small host set
+	sns      string
+	sname    string
+	shosts   []string
 	flags    Flags
 	deps     map[string]string
 	svcs     []*api_v1.Service
@@ -166,6 +174,12 @@ func genDeps(r *vh.Rng, w *world) {
 			st := vh.Pick(r, []string{"missing", "noendpoints", "ready", "ready", "ready"})
 			if s == "ext" {
 				st = vh.Pick(r, []string{"missing", "external", "external"})
+			}
+			if w.allOK {
+				st = "ready"
+				if s == "ext" {
+					st = "external"
+				}
 			}
 			w.deps["svc:"+ns+"/"+s] = st
 			if st == "missing" {
@@ -205,6 +219,9 @@ func genDeps(r *vh.Rng, w *world) {
 		}
 		for _, s := range secPool {
 			st := vh.Pick(r, []string{"missing", "invalid", "wrongtype", "ok", "ok", "ok"})
+			if w.allOK {
+				st = "ok"
+			}
 			w.deps["secret:"+ns+"/"+s] = st
 			if st == "missing" {
 				continue
@@ -242,6 +259,9 @@ func genDeps(r *vh.Rng, w *world) {
 		}
 		for _, p := range polPool {
 			st := vh.Pick(r, []string{"missing", "invalid", "ok", "ok", "ok"})
+			if w.allOK {
+				st = "ok"
+			}
 			w.deps["policy:"+ns+"/"+p] = st
 			if st == "missing" {
 				continue
@@ -270,6 +290,9 @@ func genDeps(r *vh.Rng, w *world) {
 				pol.Spec.JWTAuth = &conf_v1.JWTAuth{Realm: "My API", Secret: "jwk"}
 				if r.Chance(1, 3) {
 					pol.Spec.JWTAuth.Token = "$http_token"
+				}
+				if w.flags.Plus && r.Chance(1, 2) {
+					pol.Spec.JWTAuth = &conf_v1.JWTAuth{Realm: "My API", JwksURI: "https://idp.example.com/keys", KeyCache: "1h"}
 				}
 			case "basic":
 				pol.Spec.BasicAuth = &conf_v1.BasicAuth{Realm: "My Realm", Secret: "htpasswd"}
@@ -688,6 +711,19 @@ func (w *world) addVS(r *vh.Rng, ns, name, host string, vsrs []string) {
 	if r.Chance(1, 8) {
 		vs.Spec.Gunzip = true
 	}
+	if w.flags.HTTP2 && vs.Spec.TLS != nil && vs.Spec.TLS.Secret != "" && r.Chance(1, 2) {
+		// a gRPC upstream (needs http2 + TLS termination), optionally with a gRPC health check without a port
+		u := &vs.Spec.Upstreams[0]
+		u.Type = "grpc"
+		u.HealthCheck, u.SessionCookie, u.NTLM = nil, nil, false
+		if w.flags.Plus && r.Chance(2, 3) {
+			u.HealthCheck = &conf_v1.HealthCheck{Enable: true, Interval: "5s", Jitter: "1s", Fails: 1, Passes: 1, GRPCStatus: ptr(12), GRPCService: "grpc.health.v1.Health"}
+			if r.Chance(1, 3) {
+				u.HealthCheck.Port = 50051
+			}
+			u.UseClusterIP = false
+		}
+	}
 	vs.Spec.Policies = genPolicyRefs(r, ns)
 	res.Policies = polNames(vs.Spec.Policies)
 	seen := map[string]bool{}
@@ -822,8 +858,17 @@ func genWorld(r *vh.Rng, class string) *world {
 	case "set":
 		n := 2 + r.Intn(4)
 		used := map[string]bool{}
+		if r.Chance(1, 3) {
+			// resources of different kinds with the SAME namespace/name that compete for a small host set
+			w.shared = true
+			w.sns, w.sname = nameKey(r)
+			w.shosts = []string{vh.Pick(r, hostPool), vh.Pick(r, hostPool)}
+		}
 		for i := 0; i < n; i++ {
 			ns, name := nameKey(r)
+			if w.shared && r.Chance(2, 3) {
+				ns, name = w.sns, w.sname
+			}
 			k := r.Intn(10)
 			kind := []string{"ing", "ing", "ing", "mm", "vs", "vs", "vs", "vsvsr", "ts", "ts"}[k]
 			if used[kind[:2]+ns+"/"+name] {
@@ -831,6 +876,9 @@ func genWorld(r *vh.Rng, class string) *world {
 			}
 			used[kind[:2]+ns+"/"+name] = true
 			host := vh.Pick(r, hostPool)
+			if w.shared && r.Chance(2, 3) {
+				host = vh.Pick(r, w.shosts)
+			}
 			switch kind {
 			case "ing":
 				hosts := []string{host}
@@ -881,6 +929,21 @@ func genWorld(r *vh.Rng, class string) *world {
 				}
 			case "ts":
 				w.addTS(r, ns, name)
+			}
+		}
+		// creation times (few distinct values, so ties happen) and UIDs decide who wins a host
+		for i, o := range w.objs {
+			ts := meta_v1.Unix(int64(1700000000+60*r.Intn(4)), 0)
+			uid := types.UID(fmt.Sprintf("uid-%02d-%d", r.Intn(50), i))
+			switch x := o.(type) {
+			case *networking.Ingress:
+				x.CreationTimestamp, x.UID = ts, uid
+			case *conf_v1.VirtualServer:
+				x.CreationTimestamp, x.UID = ts, uid
+			case *conf_v1.VirtualServerRoute:
+				x.CreationTimestamp, x.UID = ts, uid
+			case *conf_v1.TransportServer:
+				x.CreationTimestamp, x.UID = ts, uid
 			}
 		}
 		// random application order
@@ -1298,12 +1361,15 @@ func runPaths(seed uint64, id int) (c Case) {
 	return c
 }
 
-func runCase(seed uint64, id int, class string) Case {
+func runCase(seed uint64, id int, class string, k int) Case {
 	if class == "names" {
 		return runNames(seed, id)
 	}
 	if class == "paths" {
 		return runPaths(seed, id)
+	}
+	if class == "payload" {
+		return runPayload(seed, id, k)
 	}
 	r := vh.NewRng(seed).Fork(uint64(id))
 	w := genWorld(r, class)
@@ -1327,25 +1393,30 @@ func main() {
 			os.Exit(2)
 		}
 		for _, c := range cases {
-			out.Emit(runCase(c.Seed, c.ID, c.Class))
+			out.Emit(runCase(c.Seed, c.ID, c.Class, c.K))
 		}
 		return
 	}
 	id := 0
 	for _, cl := range witnessClasses {
-		out.Emit(runCase(a.Seed, id, cl))
+		out.Emit(runCase(a.Seed, id, cl, 0))
 		id++
 	}
 	for i := 0; i < a.N; i++ {
-		out.Emit(runCase(a.Seed, id, "set"))
+		out.Emit(runCase(a.Seed, id, "set", 0))
 		id++
 	}
 	for i := 0; i < a.N; i++ {
-		out.Emit(runCase(a.Seed, id, "names"))
+		out.Emit(runCase(a.Seed, id, "names", 0))
 		id++
 	}
 	for i := 0; i < a.N; i++ {
-		out.Emit(runCase(a.Seed, id, "paths"))
+		out.Emit(runCase(a.Seed, id, "paths", 0))
+		id++
+	}
+	np := payloadCount(a.Seed, a.Tier)
+	for k := 0; k < np; k++ {
+		out.Emit(runCase(a.Seed, id, "payload", k))
 		id++
 	}
 }
